@@ -183,6 +183,7 @@ class _Continue(Exception):
 
 
 UNIT = ()
+INT_TYPES = {"i8": (8, True), "i16": (16, True), "i32": (32, True), "i64": (64, True), "isize": (64, True), "u8": (8, False), "u16": (16, False), "u32": (32, False), "u64": (64, False), "usize": (64, False)}
 STD_FLOAT_CONSTS = {}
 for _pre in ("std::f64::", "core::f64::", "f64::", "core::f64::<impl f64>::", "std::f64::<impl f64>::"):
     STD_FLOAT_CONSTS[_pre + "INFINITY"] = float("inf")
@@ -350,6 +351,27 @@ def _walk_pat(p):
                         yield x
 
 
+def rust_f64_display(x):
+    """Rust's Display for f64: shortest digits that round-trip, never an exponent"""
+    from decimal import Decimal
+    if x != x:
+        return "NaN"
+    if x in (float("inf"), float("-inf")):
+        return "inf" if x > 0 else "-inf"
+    if x == int(x) and abs(x) < 1e16:
+        s_ = str(int(x))
+        return "-0" if (s_ == "0" and str(x).startswith("-")) else s_
+    return format(Decimal(repr(x)), "f")
+
+
+def _hashable(x):
+    try:
+        hash(x)
+        return x
+    except TypeError:
+        return repr(x)
+
+
 def _deep_clone(v):
     """Rust's clone of owned data: nothing is shared with the original (models of foreign handles are kept as they are)"""
     if isinstance(v, ListV):
@@ -394,6 +416,7 @@ class Interp:
         self.depth = 0
         self.trace = []
         self.fn_stack = []
+        self.concrete_floats = False
         self.trace_unknown = bool(os.environ.get("INTERP_TRACE"))
         self.deref_impls = {}
         for imp in facts.items["impls"]:
@@ -455,6 +478,15 @@ class Interp:
             if len(params) != len(args):
                 return Unknown("arity mismatch calling " + path)
             for p, a in zip(params, args):
+                # deref coercion at the call site (`&Spanned<String>` passed where `&str` is expected) is implicit in HIR
+                if isinstance(a, Var) and p.get("k") == "PBind":
+                    pt = (self.F.tyi(p.get("t")) or "").replace(" ", "")
+                    if pt in ("&str", "&std::string::String", "&mutstd::string::String", "str"):
+                        for _ in range(3):
+                            d = self.deref(a) if isinstance(a, Var) else None
+                            if d is None or is_unknown(d):
+                                break
+                            a = d
                 if not self.bind(p, a, env):
                     return Unknown("cannot bind parameter of " + path)
             try:
@@ -535,6 +567,8 @@ class Interp:
         if isinstance(v, int):
             return Rope([str(v)])
         if isinstance(v, float):
+            if self.concrete_floats:
+                return Rope([rust_f64_display(v)])
             return Rope([Leaf("f64:%r" % v)])
         if isinstance(v, Leaf):
             return Rope([v])
@@ -719,6 +753,20 @@ class Interp:
                 if r is not True:
                     return r
             return True
+        if k == "PTuple" and isinstance(v, MutRef) and isinstance(v.get(), tuple) and len(v.get()) == len(p["pats"]):
+            # destructuring through `&mut (a, b)`: the parts are references into the tuple
+            for i_, q in enumerate(p["pats"]):
+                cur = v.get()[i_]
+                if isinstance(cur, (Var, ListV)):
+                    part = cur
+                else:
+                    part = MutRef((lambda i_=i_: v.get()[i_]), (lambda x, i_=i_: v.set(tuple(x if j_ == i_ else y for j_, y in enumerate(v.get())))))
+                r = self.bind(q, part, env)
+                if r is not True:
+                    return r
+            return True
+        if isinstance(v, MutRef) and k in ("PLit", "PRange", "PPath", "PTupleStruct", "PStruct", "POr"):
+            v = v.get()
         if k == "PTuple":
             if not isinstance(v, tuple) or len(v) != len(p["pats"]):
                 if isinstance(v, tuple) and "dd" in p:
@@ -892,7 +940,36 @@ class Interp:
         return self.ev(n["a"], env)
 
     def ev_Cast(self, n, env):
-        return self.ev(n["a"], env)
+        v = self.ev(n["a"], env)
+        if isinstance(v, MutRef):
+            v = v.get()
+        ty = (self.F.ty(n) or "").strip()
+        if isinstance(v, bool):
+            if ty in ("f64", "f32"):
+                return 1.0 if v else 0.0
+            if ty in INT_TYPES:
+                return 1 if v else 0
+            return v
+        if isinstance(v, int) and ty in ("f64", "f32"):
+            return float(v)
+        if isinstance(v, float) and ty in INT_TYPES:
+            if v != v:
+                return 0
+            bits, signed = INT_TYPES[ty]
+            lo = -(1 << (bits - 1)) if signed else 0
+            hi = (1 << (bits - 1)) - 1 if signed else (1 << bits) - 1
+            if v >= hi:
+                return hi
+            if v <= lo:
+                return lo
+            return int(v)  # `as` truncates toward zero and saturates
+        if isinstance(v, int) and ty in INT_TYPES:
+            bits, signed = INT_TYPES[ty]
+            m = v & ((1 << bits) - 1)
+            if signed and m >= (1 << (bits - 1)):
+                m -= 1 << bits
+            return m
+        return v
 
     def ev_Tup(self, n, env):
         return tuple(self.ev(x, env) for x in n["es"])
@@ -948,7 +1025,7 @@ class Interp:
                     if g is not True:
                         return Unknown("guard undecidable: %r" % (g,))
                 env.update(e2)
-                return self.ev(arm["body"], e2)
+                return self.ev(arm["body"], env)  # one frame per function: writes inside the arm are visible after it
         return Unknown("no arm matched %r" % (v,))
 
     def ev_Macro(self, n, env):
@@ -1124,8 +1201,20 @@ class Interp:
             return ListV([_deep_clone(args[0]) for _ in range(args[1])])
         if cn in ("std::string::String::new", "alloc::string::String::new", "std::string::String::with_capacity"):
             return Rope()
-        if cn.startswith("<indexmap::IndexMap") and cn.endswith("::from") and len(args) == 1 and isinstance(args[0], ListV):
-            return ListV(list(args[0].items))
+        if cn.startswith(("<indexmap::IndexMap", "<std::collections::HashMap", "<std::vec::Vec", "<indexmap::IndexSet", "<std::collections::HashSet", "<std::collections::VecDeque")) and cn.endswith(("::from", "::from_iter")) and len(args) == 1 and isinstance(args[0], ListV):
+            items = list(args[0].items)
+            if ("Map" in cn.split(" as ")[0]) and all(isinstance(x, tuple) and len(x) == 2 for x in items):
+                seen = {}
+                for k_, v_ in items:
+                    seen[_hashable(_plain(k_))] = (k_, v_)   # later entries win, first position kept
+                out, done = [], set()
+                for k_, v_ in items:
+                    h = _hashable(_plain(k_))
+                    if h not in done:
+                        done.add(h)
+                        out.append(seen[h])
+                items = out
+            return ListV(items)
         if cn in ("indexmap::IndexMap::new", "indexmap::IndexMap::with_capacity", "std::collections::HashMap::new", "std::collections::BTreeMap::new", "indexmap::IndexSet::new", "std::collections::HashSet::new"):
             return ListV([])
         if cn in ("std::convert::From::from", "std::convert::Into::into") and len(args) == 1:
@@ -1185,6 +1274,9 @@ class Interp:
                 for k_ in f.env:
                     if k_ in env:
                         f.env[k_] = env[k_]
+        if isinstance(f, Var) and not f.args and not f.fields and ("::" in f.path):
+            # an enum variant / tuple struct constructor used as a function (`.map(Primitive::GraphNode)`)
+            return Var(f.path, list(args))
         if isinstance(f, FnRef):
             pn = norm(f.path)
             if len(args) == 1 and isinstance(args[0], str) and len(args[0]) == 1 and "char" in pn:
@@ -1222,6 +1314,20 @@ class Interp:
         if f is not None and "body" in f:
             recv2 = self.coerce_recv(recv, callee) if isinstance(recv, Var) else recv
             return self.call_fn(callee, [recv2] + args)
+        # dynamic dispatch: a trait method called on a value whose concrete type is known (Box<dyn Trait>, &dyn Trait)
+        if isinstance(recv, Var) and "::" in cn:
+            trait = cn.rsplit("::", 1)[0]
+            t = self.type_of(recv)
+            if t:
+                imp = "<%s as %s>::%s" % (norm(t), trait, name)
+                g = self.F.fns.get(imp)
+                if g is None:
+                    for p_, ff in self.F.fns.items():
+                        if p_.startswith("<") and p_.endswith(">::" + name) and norm(p_) == imp:
+                            g = ff
+                            break
+                if g is not None and "body" in g:
+                    return self.call_fn(g["path"], [recv] + args)
         return self.builtin_method(name, cn, recv, args, n)
 
     def builtin_method(self, name, cn, recv, args, n):
@@ -1402,6 +1508,12 @@ class Interp:
                 if recv.items:
                     return Var(SOME_PATHS[0], [recv.items.pop()])
                 return Var(NONE_PATHS[0])
+            if name in ("last", "last_mut", "first_mut") and not args:
+                if not recv.items:
+                    return Var(NONE_PATHS[0])
+                i_ = 0 if name == "first_mut" else len(recv.items) - 1
+                x = recv.items[i_]
+                return Var(SOME_PATHS[0], [x if isinstance(x, (Var, ListV)) or name == "last" else _slot_ref(recv, i_)])
             if name == "first" and not args:
                 return Var(SOME_PATHS[0], [recv.items[0]]) if recv.items else Var(NONE_PATHS[0])
             if name == "rev" and not args:
@@ -1472,6 +1584,20 @@ class Interp:
                 return Unknown("sort of %r" % (recv,))
             recv.items[:] = [recv.items[i_] for i_ in order]
             return UNIT
+        if name == "flatten" and isinstance(recv, ListV) and not args:
+            out = []
+            for x in recv.items:
+                if is_unknown(x):
+                    return x
+                if isinstance(x, ListV):
+                    out.extend(x.items)
+                elif isinstance(x, Var) and (x.path in SOME_PATHS or x.path in OK_PATHS):
+                    out.append(x.args[0])
+                elif isinstance(x, Var) and (x.path in NONE_PATHS or x.path in ERR_PATHS):
+                    continue
+                else:
+                    return Unknown("flatten of %r" % (x,))
+            return ListV(out)
         if name == "zip" and isinstance(recv, ListV) and len(args) == 1 and isinstance(args[0], ListV):
             return ListV([(a_, b_) for a_, b_ in zip(recv.items, args[0].items)])
         if name in ("skip", "take") and isinstance(recv, ListV) and len(args) == 1 and isinstance(args[0], int):
@@ -1705,6 +1831,58 @@ class Interp:
             if name == "round":
                 return float(_m.floor(abs(recv) + 0.5)) * (1.0 if recv >= 0 else -1.0)  # half away from zero
             return float({"ceil": _m.ceil, "floor": _m.floor, "trunc": _m.trunc}[name](recv))
+        if name.startswith("to_") and name[3:] in INT_TYPES and not args and isinstance(recv, (int, float)) and not isinstance(recv, bool) and "ToPrimitive" in cn:
+            bits, signed = INT_TYPES[name[3:]]
+            lo = -(1 << (bits - 1)) if signed else 0
+            hi = (1 << (bits - 1)) - 1 if signed else (1 << bits) - 1
+            if isinstance(recv, float):
+                if recv != recv or abs(recv) == float("inf"):
+                    return Var(NONE_PATHS[0])
+                iv = int(recv)  # num_traits truncates
+            else:
+                iv = recv
+            return Var(SOME_PATHS[0], [iv]) if lo <= iv <= hi else Var(NONE_PATHS[0])
+        if name in ("to_f64", "to_f32") and not args and isinstance(recv, (int, float)) and not isinstance(recv, bool) and "ToPrimitive" in cn:
+            return Var(SOME_PATHS[0], [float(recv)])
+        if name == "get_index" and isinstance(recv, ListV) and len(args) == 1 and isinstance(args[0], int):
+            return Var(SOME_PATHS[0], [recv.items[args[0]]]) if 0 <= args[0] < len(recv.items) else Var(NONE_PATHS[0])
+        mnum = re.search(r"num::<impl (i8|i16|i32|i64|isize|u8|u16|u32|u64|usize)>::(checked_|wrapping_|saturating_)?(neg|add|sub|mul|div|rem|abs|pow)$", cn)
+        if mnum and isinstance(recv, int) and not isinstance(recv, bool) and all(isinstance(a_, int) and not isinstance(a_, bool) for a_ in args):
+            bits, signed = INT_TYPES[mnum.group(1)]
+            lo = -(1 << (bits - 1)) if signed else 0
+            hi = (1 << (bits - 1)) - 1 if signed else (1 << bits) - 1
+            mode, op_ = mnum.group(2) or "", mnum.group(3)
+            try:
+                if op_ == "neg":
+                    v_ = -recv
+                elif op_ == "abs":
+                    v_ = abs(recv)
+                elif op_ == "add":
+                    v_ = recv + args[0]
+                elif op_ == "sub":
+                    v_ = recv - args[0]
+                elif op_ == "mul":
+                    v_ = recv * args[0]
+                elif op_ == "pow":
+                    v_ = recv ** args[0]
+                elif op_ in ("div", "rem"):
+                    if args[0] == 0:
+                        return Var(NONE_PATHS[0]) if mode == "checked_" else Unknown("division by zero panics")
+                    q = abs(recv) // abs(args[0]) * (1 if (recv >= 0) == (args[0] >= 0) else -1)  # truncating
+                    v_ = q if op_ == "div" else recv - q * args[0]
+            except Exception:
+                return Unknown("integer operation")
+            inr = lo <= v_ <= hi
+            if mode == "checked_":
+                return Var(SOME_PATHS[0], [v_]) if inr else Var(NONE_PATHS[0])
+            if mode == "saturating_":
+                return min(max(v_, lo), hi)
+            if mode == "wrapping_":
+                m_ = v_ & ((1 << bits) - 1)
+                return m_ - (1 << bits) if signed and m_ >= (1 << (bits - 1)) else m_
+            return v_ if inr else Unknown("integer overflow panics")
+        if name in ("into_values", "into_keys") and not args and isinstance(recv, ListV) and all(isinstance(x, tuple) and len(x) == 2 for x in recv.items):
+            return ListV([x[1] if name == "into_values" else x[0] for x in recv.items])
         if name == "fract" and not args and isinstance(recv, float):
             import math as _m
             return _m.fmod(recv, 1.0) if recv == recv and abs(recv) != float("inf") else float("nan")
